@@ -8,12 +8,10 @@ import (
 	"runtime/debug"
 	"strings"
 
-	"github.com/gogo/protobuf/proto"
 
 	"github.com/kardiachain/go-kardia/consensus"
 	"github.com/kardiachain/go-kardia/lib/common"
 	kcons "github.com/kardiachain/go-kardia/proto/kardiachain/consensus"
-	kbits "github.com/kardiachain/go-kardia/proto/kardiachain/libs/bits"
 	kproto "github.com/kardiachain/go-kardia/proto/kardiachain/types"
 	"github.com/kardiachain/go-kardia/types"
 )
@@ -471,28 +469,3 @@ func (e *consEnv) run(cs *caseT) *outcome {
 }
 
 // ---------------------------------------------------------------------------------------------
-// round trip of well-formed messages (oracle 5)
-
-func consRoundTrip(s seed) string {
-	m, err := consensus.VerifC18DecodeMsg(s.Bytes)
-	if err != nil {
-		return fmt.Sprintf("valid %s does not decode: %v", s.Msg, err)
-	}
-	b2 := consensus.MustEncode(m)
-	if !bytesEq(b2, s.Bytes) {
-		return fmt.Sprintf("%s: encode(decode(x)) != x (%d vs %d bytes)", s.Msg, len(b2), len(s.Bytes))
-	}
-	m2, err := consensus.VerifC18DecodeMsg(b2)
-	if err != nil {
-		return fmt.Sprintf("%s: re-encoded message does not decode: %v", s.Msg, err)
-	}
-	if fmt.Sprintf("%#v", deref(m)) != fmt.Sprintf("%#v", deref(m2)) && !bytesEq(consensus.MustEncode(m2), b2) {
-		return fmt.Sprintf("%s: decode(encode(m)) differs from m", s.Msg)
-	}
-	return ""
-}
-
-func deref(m consensus.Message) interface{} { return m }
-
-var _ = proto.Marshal
-var _ = kbits.BitArray{}
